@@ -14,6 +14,7 @@ mod puzzles;
 mod refsem;
 mod refsyn;
 mod report;
+mod shrink;
 mod solve3;
 mod tt;
 mod util;
@@ -108,7 +109,19 @@ fn main() {
             replayed.push((k, still));
         }
         let ctx2 = ctx.clone();
-        let (st, spec) = util::on_big_stack(move || (p.run)(&ctx2));
+        let (mut st, spec) = util::on_big_stack(move || (p.run)(&ctx2));
+        // shorten the witnesses of (a few) text-based violations; the verdict is already decided
+        if std::env::var("VERIF_NO_SHRINK").is_err() {
+            let known_sigs: Vec<String> = replayed.iter().map(|(k, _)| k.signature.clone()).collect();
+            let todo: Vec<usize> = (0..st.violations.len()).filter(|i| !known_sigs.contains(&st.violations[*i].signature)).take(4).collect();
+            for i in todo {
+                let v = st.violations[i].clone();
+                let ctx3 = ctx.clone();
+                if let Some(smaller) = util::on_big_stack(move || shrink::shrink_violation(&ctx3, &p, &v, 150)) {
+                    st.violations[i] = smaller;
+                }
+            }
+        }
         report::finish(&ctx, st, spec, &replayed)
     };
     let _ = std::fs::remove_dir_all(&scratch);
